@@ -20,7 +20,7 @@
 
 import pickle
 from functools import reduce
-from os import makedirs
+from os import makedirs, replace
 from os.path import isdir, isfile, join
 from warnings import warn
 
@@ -428,8 +428,6 @@ def optimize_kl(likelihood_energy,
                     overwrite=True)
 
             if _MPI_master(comm(iglobal)):
-                with open(join(output_directory, "last_finished_iteration"), "w") as f:
-                    f.write(str(iglobal))
                 _pickle_save_values(iglobal, 'energy_history', energy_history)
                 if plot_energy_history:
                     _plot_energy_history(iglobal, energy_history)
@@ -439,6 +437,13 @@ def optimize_kl(likelihood_energy,
         _barrier(comm(iglobal))
 
         _counting_report(count, iglobal, comm)
+
+        # Mark the iteration as finished only after everything that a resumed
+        # run reads (samples, energy history, minisanity history) is on disk
+        if output_directory is not None and _MPI_master(comm(iglobal)):
+            _atomic_write(join(output_directory, "last_finished_iteration"),
+                          str(iglobal).encode())
+        _barrier(comm(iglobal))
 
         _handle_inspect_callback(inspect_callback, sl, iglobal)
         _barrier(comm(iglobal))
@@ -482,11 +487,19 @@ def _load_random_state():
         setState(f.read())
 
 
+def _atomic_write(file_name, data):
+    """Write `data` (bytes) such that a crash leaves either the old or the
+    new content of `file_name` behind, never a truncated file."""
+    tmp_name = file_name + ".tmp"
+    with open(tmp_name, "wb") as f:
+        f.write(data)
+    replace(tmp_name, file_name)
+
+
 def _pickle_save_values(index, name, val):
     file_name = join(_output_directory, f"pickle/{name}_")
     file_name += _file_name_by_strategy(index)
-    with open(file_name, "wb") as f:
-        pickle.dump(val, f)
+    _atomic_write(file_name, pickle.dumps(val))
 
 
 def _pickle_load_values(index, name):
